@@ -13,7 +13,7 @@ open MenpoModel.C16 MenpoModel.C16.PyX
 
 def genValidateFilepath (env : Env) (cwd : Path) (fp : Fp) (overwrite : Bool) : IOx Fp :=
   let pathfilepath0 := (genNormPath env cwd fp)
-  ((fpExists cwd pathfilepath0)).bind fun tmp0 =>
+  W.bind ((fpExists cwd pathfilepath0)) fun tmp0 =>
   if (tmp0 && (!(PyX.truthy overwrite))) then
     W.throw Exc.overwriteError
   else
@@ -21,11 +21,12 @@ def genValidateFilepath (env : Env) (cwd : Path) (fp : Fp) (overwrite : Bool) : 
 
 def genExtToFunc (extension : OStr) (extensionsmap : List (String × String)) : Except Exc (Option String) :=
   PyX.tryE (
-      ((mapIndex extensionsmap extension)).bind fun r_ => .ok (PyX.TryOut.ret r_))
+      Except.bind ((mapIndex extensionsmap extension)) fun r_ =>
+.ok (PyX.TryOut.ret r_))
     (fun (o_ : PyX.TryOut _ Unit) =>
       match o_ with
-      | .ret r_ =>
-        .ok (r_)
+      | .ret r_ => (
+        .ok (r_))
       | .fell s0 =>
       .ok none)
     (fun e_ =>
@@ -37,27 +38,27 @@ def genExtToFunc (extension : OStr) (extensionsmap : List (String × String)) : 
 def genValidateAndGetT (env : Env) (cwd : Path) (filepath : Fp) (extensionsmap : List (String × String)) (extension : OStr) (overwrite : Bool) : IOx (Option String × OStr) :=
   if (Fp.isStr filepath) then
     let filepath0 := (Fp.toPath filepath)
-    ((genValidateFilepath env cwd filepath0 overwrite)).bind fun filepath1 =>
-      ((W.lift (genParseAndValidate filepath1 extension extensionsmap))).bind fun extension0 =>
-        ((W.lift (genExtToFunc extension0 extensionsmap))).bind fun exportcallable0 =>
+    W.bind ((genValidateFilepath env cwd filepath0 overwrite)) fun filepath1 =>
+      W.bind ((W.lift (genParseAndValidate filepath1 extension extensionsmap))) fun extension0 =>
+        W.bind ((W.lift (genExtToFunc extension0 extensionsmap))) fun exportcallable0 =>
           W.pure ((exportcallable0, extension0))
   else
-    ((genValidateFilepath env cwd filepath overwrite)).bind fun filepath0 =>
-      ((W.lift (genParseAndValidate filepath0 extension extensionsmap))).bind fun extension0 =>
-        ((W.lift (genExtToFunc extension0 extensionsmap))).bind fun exportcallable0 =>
+    W.bind ((genValidateFilepath env cwd filepath overwrite)) fun filepath0 =>
+      W.bind ((W.lift (genParseAndValidate filepath0 extension extensionsmap))) fun extension0 =>
+        W.bind ((W.lift (genExtToFunc extension0 extensionsmap))) fun exportcallable0 =>
           W.pure ((exportcallable0, extension0))
 
 def genValidateAndGetF (env : Env) (cwd : Path) (filepath : Fp) (extensionsmap : List (String × String)) (extension : OStr) (overwrite : Bool) : IOx (Option String) :=
   if (Fp.isStr filepath) then
     let filepath0 := (Fp.toPath filepath)
-    ((genValidateFilepath env cwd filepath0 overwrite)).bind fun filepath1 =>
-      ((W.lift (genParseAndValidate filepath1 extension extensionsmap))).bind fun extension0 =>
-        ((W.lift (genExtToFunc extension0 extensionsmap))).bind fun exportcallable0 =>
+    W.bind ((genValidateFilepath env cwd filepath0 overwrite)) fun filepath1 =>
+      W.bind ((W.lift (genParseAndValidate filepath1 extension extensionsmap))) fun extension0 =>
+        W.bind ((W.lift (genExtToFunc extension0 extensionsmap))) fun exportcallable0 =>
           W.pure (exportcallable0)
   else
-    ((genValidateFilepath env cwd filepath overwrite)).bind fun filepath0 =>
-      ((W.lift (genParseAndValidate filepath0 extension extensionsmap))).bind fun extension0 =>
-        ((W.lift (genExtToFunc extension0 extensionsmap))).bind fun exportcallable0 =>
+    W.bind ((genValidateFilepath env cwd filepath overwrite)) fun filepath0 =>
+      W.bind ((W.lift (genParseAndValidate filepath0 extension extensionsmap))) fun extension0 =>
+        W.bind ((W.lift (genExtToFunc extension0 extensionsmap))) fun exportcallable0 =>
           W.pure (exportcallable0)
 
 def genExport (env : Env) (cwd : Path) (obj : ExObj) (fp : Fp) (extensionsmap : List (String × String)) (extension : OStr) (overwrite : Bool) (exporterkwargs : Option Kw) : IOx Unit :=
@@ -66,59 +67,59 @@ def genExport (env : Env) (cwd : Path) (obj : ExObj) (fp : Fp) (extensionsmap : 
     if (Fp.isStr fp) then
       let fp0 := (Fp.toPath fp)
       if (Fp.isPath fp0) then
-        ((genValidateAndGetT env cwd fp0 extensionsmap extension overwrite)).bind fun tmp0 =>
+        W.bind ((genValidateAndGetT env cwd fp0 extensionsmap extension overwrite)) fun tmp0 =>
           let p0 := tmp0
           let exportfunction0 := p0.1
           let extension0 := p0.2
-          ((fpOpenWb cwd (genNormPath env cwd fp0))).bind fun filehandle0 =>
-            ((callExporter exportfunction0 obj filehandle0 extension0 ((exporterkwargs0).getD []))).bind fun _ =>
+          W.bind ((fpOpenWb cwd (genNormPath env cwd fp0))) fun filehandle0 =>
+            W.bind ((callExporter exportfunction0 obj filehandle0 extension0 ((exporterkwargs0).getD []))) fun _ =>
               W.pure ()
       else
         if (extension).isNone then
           W.throw Exc.valueError
         else
-          ((W.lift (genNormalizeExtension extension))).bind fun extension0 =>
+          W.bind ((W.lift (genNormalizeExtension extension))) fun extension0 =>
             W.tryW (
-                ((W.lift (Fp.getName fp0))).bind fun tmp1 =>
-                ((genValidateAndGetF env cwd (Fp.toPath tmp1) extensionsmap extension0 overwrite)).bind fun exportfunction0 =>
+                W.bind ((W.lift (Fp.getName fp0))) fun tmp1 =>
+                W.bind ((genValidateAndGetF env cwd (Fp.toPath tmp1) extensionsmap extension0 overwrite)) fun exportfunction0 =>
                   W.pure (exportfunction0))
               (fun s0 =>
                 let exportfunction0 := s0
-                ((callExporter exportfunction0 obj fp0 extension0 ((exporterkwargs0).getD []))).bind fun _ =>
+                W.bind ((callExporter exportfunction0 obj fp0 extension0 ((exporterkwargs0).getD []))) fun _ =>
                   W.pure ())
               (fun e_ =>
                 if e_ == Exc.attributeError then
-                  ((W.lift (genExtToFunc extension0 extensionsmap))).bind fun exportfunction0 =>
-                    ((callExporter exportfunction0 obj fp0 extension0 ((exporterkwargs0).getD []))).bind fun _ =>
+                  W.bind ((W.lift (genExtToFunc extension0 extensionsmap))) fun exportfunction0 =>
+                    W.bind ((callExporter exportfunction0 obj fp0 extension0 ((exporterkwargs0).getD []))) fun _ =>
                       W.pure ()
                 else
                   W.throw e_)
     else
       if (Fp.isPath fp) then
-        ((genValidateAndGetT env cwd fp extensionsmap extension overwrite)).bind fun tmp2 =>
+        W.bind ((genValidateAndGetT env cwd fp extensionsmap extension overwrite)) fun tmp2 =>
           let p0 := tmp2
           let exportfunction0 := p0.1
           let extension0 := p0.2
-          ((fpOpenWb cwd (genNormPath env cwd fp))).bind fun filehandle0 =>
-            ((callExporter exportfunction0 obj filehandle0 extension0 ((exporterkwargs0).getD []))).bind fun _ =>
+          W.bind ((fpOpenWb cwd (genNormPath env cwd fp))) fun filehandle0 =>
+            W.bind ((callExporter exportfunction0 obj filehandle0 extension0 ((exporterkwargs0).getD []))) fun _ =>
               W.pure ()
       else
         if (extension).isNone then
           W.throw Exc.valueError
         else
-          ((W.lift (genNormalizeExtension extension))).bind fun extension0 =>
+          W.bind ((W.lift (genNormalizeExtension extension))) fun extension0 =>
             W.tryW (
-                ((W.lift (Fp.getName fp))).bind fun tmp3 =>
-                ((genValidateAndGetF env cwd (Fp.toPath tmp3) extensionsmap extension0 overwrite)).bind fun exportfunction0 =>
+                W.bind ((W.lift (Fp.getName fp))) fun tmp3 =>
+                W.bind ((genValidateAndGetF env cwd (Fp.toPath tmp3) extensionsmap extension0 overwrite)) fun exportfunction0 =>
                   W.pure (exportfunction0))
               (fun s0 =>
                 let exportfunction0 := s0
-                ((callExporter exportfunction0 obj fp extension0 ((exporterkwargs0).getD []))).bind fun _ =>
+                W.bind ((callExporter exportfunction0 obj fp extension0 ((exporterkwargs0).getD []))) fun _ =>
                   W.pure ())
               (fun e_ =>
                 if e_ == Exc.attributeError then
-                  ((W.lift (genExtToFunc extension0 extensionsmap))).bind fun exportfunction0 =>
-                    ((callExporter exportfunction0 obj fp extension0 ((exporterkwargs0).getD []))).bind fun _ =>
+                  W.bind ((W.lift (genExtToFunc extension0 extensionsmap))) fun exportfunction0 =>
+                    W.bind ((callExporter exportfunction0 obj fp extension0 ((exporterkwargs0).getD []))) fun _ =>
                       W.pure ()
                 else
                   W.throw e_)
@@ -126,59 +127,59 @@ def genExport (env : Env) (cwd : Path) (obj : ExObj) (fp : Fp) (extensionsmap : 
     if (Fp.isStr fp) then
       let fp0 := (Fp.toPath fp)
       if (Fp.isPath fp0) then
-        ((genValidateAndGetT env cwd fp0 extensionsmap extension overwrite)).bind fun tmp4 =>
+        W.bind ((genValidateAndGetT env cwd fp0 extensionsmap extension overwrite)) fun tmp4 =>
           let p0 := tmp4
           let exportfunction0 := p0.1
           let extension0 := p0.2
-          ((fpOpenWb cwd (genNormPath env cwd fp0))).bind fun filehandle0 =>
-            ((callExporter exportfunction0 obj filehandle0 extension0 ((exporterkwargs).getD []))).bind fun _ =>
+          W.bind ((fpOpenWb cwd (genNormPath env cwd fp0))) fun filehandle0 =>
+            W.bind ((callExporter exportfunction0 obj filehandle0 extension0 ((exporterkwargs).getD []))) fun _ =>
               W.pure ()
       else
         if (extension).isNone then
           W.throw Exc.valueError
         else
-          ((W.lift (genNormalizeExtension extension))).bind fun extension0 =>
+          W.bind ((W.lift (genNormalizeExtension extension))) fun extension0 =>
             W.tryW (
-                ((W.lift (Fp.getName fp0))).bind fun tmp5 =>
-                ((genValidateAndGetF env cwd (Fp.toPath tmp5) extensionsmap extension0 overwrite)).bind fun exportfunction0 =>
+                W.bind ((W.lift (Fp.getName fp0))) fun tmp5 =>
+                W.bind ((genValidateAndGetF env cwd (Fp.toPath tmp5) extensionsmap extension0 overwrite)) fun exportfunction0 =>
                   W.pure (exportfunction0))
               (fun s0 =>
                 let exportfunction0 := s0
-                ((callExporter exportfunction0 obj fp0 extension0 ((exporterkwargs).getD []))).bind fun _ =>
+                W.bind ((callExporter exportfunction0 obj fp0 extension0 ((exporterkwargs).getD []))) fun _ =>
                   W.pure ())
               (fun e_ =>
                 if e_ == Exc.attributeError then
-                  ((W.lift (genExtToFunc extension0 extensionsmap))).bind fun exportfunction0 =>
-                    ((callExporter exportfunction0 obj fp0 extension0 ((exporterkwargs).getD []))).bind fun _ =>
+                  W.bind ((W.lift (genExtToFunc extension0 extensionsmap))) fun exportfunction0 =>
+                    W.bind ((callExporter exportfunction0 obj fp0 extension0 ((exporterkwargs).getD []))) fun _ =>
                       W.pure ()
                 else
                   W.throw e_)
     else
       if (Fp.isPath fp) then
-        ((genValidateAndGetT env cwd fp extensionsmap extension overwrite)).bind fun tmp6 =>
+        W.bind ((genValidateAndGetT env cwd fp extensionsmap extension overwrite)) fun tmp6 =>
           let p0 := tmp6
           let exportfunction0 := p0.1
           let extension0 := p0.2
-          ((fpOpenWb cwd (genNormPath env cwd fp))).bind fun filehandle0 =>
-            ((callExporter exportfunction0 obj filehandle0 extension0 ((exporterkwargs).getD []))).bind fun _ =>
+          W.bind ((fpOpenWb cwd (genNormPath env cwd fp))) fun filehandle0 =>
+            W.bind ((callExporter exportfunction0 obj filehandle0 extension0 ((exporterkwargs).getD []))) fun _ =>
               W.pure ()
       else
         if (extension).isNone then
           W.throw Exc.valueError
         else
-          ((W.lift (genNormalizeExtension extension))).bind fun extension0 =>
+          W.bind ((W.lift (genNormalizeExtension extension))) fun extension0 =>
             W.tryW (
-                ((W.lift (Fp.getName fp))).bind fun tmp7 =>
-                ((genValidateAndGetF env cwd (Fp.toPath tmp7) extensionsmap extension0 overwrite)).bind fun exportfunction0 =>
+                W.bind ((W.lift (Fp.getName fp))) fun tmp7 =>
+                W.bind ((genValidateAndGetF env cwd (Fp.toPath tmp7) extensionsmap extension0 overwrite)) fun exportfunction0 =>
                   W.pure (exportfunction0))
               (fun s0 =>
                 let exportfunction0 := s0
-                ((callExporter exportfunction0 obj fp extension0 ((exporterkwargs).getD []))).bind fun _ =>
+                W.bind ((callExporter exportfunction0 obj fp extension0 ((exporterkwargs).getD []))) fun _ =>
                   W.pure ())
               (fun e_ =>
                 if e_ == Exc.attributeError then
-                  ((W.lift (genExtToFunc extension0 extensionsmap))).bind fun exportfunction0 =>
-                    ((callExporter exportfunction0 obj fp extension0 ((exporterkwargs).getD []))).bind fun _ =>
+                  W.bind ((W.lift (genExtToFunc extension0 extensionsmap))) fun exportfunction0 =>
+                    W.bind ((callExporter exportfunction0 obj fp extension0 ((exporterkwargs).getD []))) fun _ =>
                       W.pure ()
                 else
                   W.throw e_)
@@ -188,22 +189,22 @@ def genExportPathsOnly (env : Env) (cwd : Path) (obj : ExObj) (fp : Fp) (extensi
     let exporterkwargs0 := (some [])
     if (Fp.isStr fp) then
       let filepath0 := (Fp.toPath fp)
-      ((genValidateAndGetF env cwd filepath0 extensionsmap extension overwrite)).bind fun exportfunction0 =>
-        ((callExporterAt cwd exportfunction0 obj (genNormPath env cwd filepath0) ((exporterkwargs0).getD []))).bind fun _ =>
+      W.bind ((genValidateAndGetF env cwd filepath0 extensionsmap extension overwrite)) fun exportfunction0 =>
+        W.bind ((callExporterAt cwd exportfunction0 obj (genNormPath env cwd filepath0) ((exporterkwargs0).getD []))) fun _ =>
           W.pure ()
     else
-      ((genValidateAndGetF env cwd fp extensionsmap extension overwrite)).bind fun exportfunction0 =>
-        ((callExporterAt cwd exportfunction0 obj (genNormPath env cwd fp) ((exporterkwargs0).getD []))).bind fun _ =>
+      W.bind ((genValidateAndGetF env cwd fp extensionsmap extension overwrite)) fun exportfunction0 =>
+        W.bind ((callExporterAt cwd exportfunction0 obj (genNormPath env cwd fp) ((exporterkwargs0).getD []))) fun _ =>
           W.pure ()
   else
     if (Fp.isStr fp) then
       let filepath0 := (Fp.toPath fp)
-      ((genValidateAndGetF env cwd filepath0 extensionsmap extension overwrite)).bind fun exportfunction0 =>
-        ((callExporterAt cwd exportfunction0 obj (genNormPath env cwd filepath0) ((exporterkwargs).getD []))).bind fun _ =>
+      W.bind ((genValidateAndGetF env cwd filepath0 extensionsmap extension overwrite)) fun exportfunction0 =>
+        W.bind ((callExporterAt cwd exportfunction0 obj (genNormPath env cwd filepath0) ((exporterkwargs).getD []))) fun _ =>
           W.pure ()
     else
-      ((genValidateAndGetF env cwd fp extensionsmap extension overwrite)).bind fun exportfunction0 =>
-        ((callExporterAt cwd exportfunction0 obj (genNormPath env cwd fp) ((exporterkwargs).getD []))).bind fun _ =>
+      W.bind ((genValidateAndGetF env cwd fp extensionsmap extension overwrite)) fun exportfunction0 =>
+        W.bind ((callExporterAt cwd exportfunction0 obj (genNormPath env cwd fp) ((exporterkwargs).getD []))) fun _ =>
           W.pure ()
 
 def genExportPickle (env : Env) (cwd : Path) (pickleTypes : List (String × String)) (obj : ExObj) (fp : Fp) (overwrite : Bool) (protocol : Nat) : IOx Unit :=
@@ -211,34 +212,34 @@ def genExportPickle (env : Env) (cwd : Path) (pickleTypes : List (String × Stri
   if (Fp.isStr fp) then
     let fp0 := (Fp.toPath fp)
     if (Fp.isPath fp0) then
-      ((genValidateFilepath env cwd fp0 overwrite)).bind fun pathfilepath0 =>
-        ((W.lift (genParseAndValidate pathfilepath0 none pickleTypes))).bind fun extension0 =>
+      W.bind ((genValidateFilepath env cwd fp0 overwrite)) fun pathfilepath0 =>
+        W.bind ((W.lift (genParseAndValidate pathfilepath0 none pickleTypes))) fun extension0 =>
           let o0 := (if (((strLast3 extension0) == (ostr ".gz"))) then Opener.gzip else Opener.plain)
-          ((openWith cwd o0 pathfilepath0)).bind fun f0 =>
-            ((genExport env cwd obj f0 pickleTypes extension0 true (some exporterkwargs0))).bind fun _ =>
+          W.bind ((openWith cwd o0 pathfilepath0)) fun f0 =>
+            W.bind ((genExport env cwd obj f0 pickleTypes extension0 true (some exporterkwargs0))) fun _ =>
               W.pure ()
     else
-      ((genExport env cwd obj fp0 pickleTypes (ostr ".pkl") overwrite (some exporterkwargs0))).bind fun _ =>
+      W.bind ((genExport env cwd obj fp0 pickleTypes (ostr ".pkl") overwrite (some exporterkwargs0))) fun _ =>
         W.pure ()
   else
     if (Fp.isPath fp) then
-      ((genValidateFilepath env cwd fp overwrite)).bind fun pathfilepath0 =>
-        ((W.lift (genParseAndValidate pathfilepath0 none pickleTypes))).bind fun extension0 =>
+      W.bind ((genValidateFilepath env cwd fp overwrite)) fun pathfilepath0 =>
+        W.bind ((W.lift (genParseAndValidate pathfilepath0 none pickleTypes))) fun extension0 =>
           let o0 := (if (((strLast3 extension0) == (ostr ".gz"))) then Opener.gzip else Opener.plain)
-          ((openWith cwd o0 pathfilepath0)).bind fun f0 =>
-            ((genExport env cwd obj f0 pickleTypes extension0 true (some exporterkwargs0))).bind fun _ =>
+          W.bind ((openWith cwd o0 pathfilepath0)) fun f0 =>
+            W.bind ((genExport env cwd obj f0 pickleTypes extension0 true (some exporterkwargs0))) fun _ =>
               W.pure ()
     else
-      ((genExport env cwd obj fp pickleTypes (ostr ".pkl") overwrite (some exporterkwargs0))).bind fun _ =>
+      W.bind ((genExport env cwd obj fp pickleTypes (ostr ".pkl") overwrite (some exporterkwargs0))) fun _ =>
         W.pure ()
 
 def genExportLandmarkFile (env : Env) (cwd : Path) (landmarkTypes : List (String × String)) (landmarksobject : ExObj) (fp : Fp) (extension : OStr) (overwrite : Bool) : IOx Unit :=
-  ((W.lift (genNormalizeExtension extension))).bind fun extension0 =>
+  W.bind ((W.lift (genNormalizeExtension extension))) fun extension0 =>
     W.tryW (
-        ((W.lift (ExObj.nPoints landmarksobject))).bind fun _ =>
+        W.bind ((W.lift (ExObj.nPoints landmarksobject))) fun _ =>
           W.pure (()))
       (fun s0 =>
-        ((genExport env cwd landmarksobject fp landmarkTypes extension0 overwrite none)).bind fun _ =>
+        W.bind ((genExport env cwd landmarksobject fp landmarkTypes extension0 overwrite none)) fun _ =>
           W.pure ())
       (fun e_ =>
         if e_ == Exc.attributeError then
@@ -247,20 +248,20 @@ def genExportLandmarkFile (env : Env) (cwd : Path) (landmarkTypes : List (String
             let m10 := ()
             W.throw Exc.valueError
           else
-            ((genExport env cwd landmarksobject fp landmarkTypes extension0 overwrite none)).bind fun _ =>
+            W.bind ((genExport env cwd landmarksobject fp landmarkTypes extension0 overwrite none)) fun _ =>
               W.pure ()
         else
           W.throw e_)
 
 def genExportImage (env : Env) (cwd : Path) (imageTypes : List (String × String)) (image : ExObj) (fp : Fp) (extension : OStr) (overwrite : Bool) : IOx Unit :=
-  ((genExport env cwd image fp imageTypes extension overwrite none)).bind fun _ =>
+  W.bind ((genExport env cwd image fp imageTypes extension overwrite none)) fun _ =>
     W.pure ()
 
 def genExportVideo (env : Env) (cwd : Path) (videoTypes : List (String × String)) (images : ExObj) (filepath : Fp) (overwrite : Bool) (fps : Nat) (kwargs : Kw) : IOx Unit :=
   let exporterkwargs0 := [("fps", fps)]
   let exporterkwargs1 := (exporterkwargs0 ++ kwargs)
-  ((W.lift (genEnforcePaths filepath))).bind fun filepath0 =>
-    ((genExportPathsOnly env cwd images filepath0 videoTypes none overwrite (some exporterkwargs1))).bind fun _ =>
+  W.bind ((W.lift (genEnforcePaths filepath))) fun filepath0 =>
+    W.bind ((genExportPathsOnly env cwd images filepath0 videoTypes none overwrite (some exporterkwargs1))) fun _ =>
       W.pure ()
 
 end MenpoModel.Generated.C16
